@@ -22,6 +22,7 @@ for mid in sorted(os.listdir(os.path.join(ROOT, "seeded"))):
     sw = f"{r['sweeps'][1]}" if "sweeps" in r else "-"
     c = m.get("confirmed_against", {})
     conf = f"exit {c.get('exit_code')}, {c.get('violation_lines')} VIOLATION lines" if c else "-"
-    print(f"| {mid.split('-')[0]} | {m.get('change', '')} | {m.get('needs_to_manifest', '')} | {rnd} | {sw} | {conf} |")
+    esc = lambda t: str(t).replace("|", "\\|")
+    print(f"| {mid.split('-')[0]} | {esc(m.get('change', ''))} | {esc(m.get('needs_to_manifest', ''))} | {rnd} | {sw} | {conf} |")
 print()
 print(json.dumps(sb.get("_meta", {})))
